@@ -87,7 +87,7 @@ Lemma exec_task_part : forall n cx st en lt lm s th k tn, (12 <= n)%nat ->
   exists st',
     pex cx n st en ltac:(let t := eval cbv in compose_task_part in exact t)
       = RRet st' (enc_id (snd (m_task_part s (th, Some k) tn))) /\
-    Rst lt lm st' (fst (m_task_part s (th, Some k) tn)) /\ i_out st' = i_out st.
+    Rst lt lm st' (fst (m_task_part s (th, Some k) tn)) /\ rest_of st' = rest_of st.
 Proof.
   intros n cx st en lt lm s th k tn Hn R Pr He1 He2. fuel 12 n Hn.
   destruct s as [ks kp tc tno tkc tkn cm mc mm]. unfold m_task_part. cbn [c_task_no c_task_ctr].
@@ -99,7 +99,7 @@ Proof.
     exists st. split; [reflexivity|split; [exact R|reflexivity]].
   - go. rewrite He2. go.
     pose proof (r_tkctr _ _ _ _ R tn) as Hc. cbn in Hc.
-    destruct (i_dicts st Composer "_task_no_counter_map" (VInt tn)) as [[| | | | | | | |l| |]|] eqn:Ed; try contradiction.
+    destruct (i_dicts st Composer "_task_no_counter_map" (VInt tn)) as [[| | | | | | | |l| | | | |]|] eqn:Ed; try contradiction.
     + (* the counter of this thread number exists *)
       destruct Hc as (Hh & Hl & Hlt & Hlm). go. rewrite Hh, He1. go. rewrite He2. go.
       pose proof (Rst_task_ctr _ _ _ _ tn l R Ed) as R1.
@@ -126,7 +126,7 @@ Lemma eval_compose : forall n th ok nl lp st en lt lm s, (24 <= n)%nat ->
   exists st',
     pev (mkCx (th, ok) nl lp) n st en (EMethod Composer "_compose" [EVar "thread"; EVar "task"])
       = EV st' en (enc_id (snd (compose s (th, ok)))) /\
-    Rst lt lm st' (fst (compose s (th, ok))) /\ i_out st' = i_out st.
+    Rst lt lm st' (fst (compose s (th, ok))) /\ rest_of st' = rest_of st.
 Proof.
   intros n th ok nl lp st en lt lm s Hn R Pr He1 He2. fuel 24 n Hn.
   destruct s as [ks kp tc tno tkc tkn cm mc mm].
@@ -171,7 +171,7 @@ Lemma composer_call_tie : forall n th ok nl lp st en lt lm s, (36 <= n)%nat ->
   Rst lt lm st s -> Pre s ->
   exists st',
     pev (mkCx (th, ok) nl lp) n st en (ECall (EAttr Keeper "_counter")) = EV st' en (enc_id (snd (composer_call s (th, ok)))) /\
-    Rst lt lm st' (fst (composer_call s (th, ok))) /\ i_out st' = i_out st.
+    Rst lt lm st' (fst (composer_call s (th, ok))) /\ rest_of st' = rest_of st.
 Proof.
   intros n th ok nl lp st en lt lm s Hn R Pr. fuel 36 n Hn.
   steps. rewrite (r_kc _ _ _ _ R). go.
@@ -208,7 +208,7 @@ Lemma eval_current_thread_no : forall n th ok nl lp st en lt lm s, (40 <= n)%nat
   Rst lt lm st s -> Pre s ->
   exists st',
     pev (mkCx (th, ok) nl lp) n st en (EHook "current_thread_no") = EV st' en (VInt (fst (snd (composer_call s (th, ok))))) /\
-    Rst lt lm st' (fst (composer_call s (th, ok))) /\ i_out st' = i_out st.
+    Rst lt lm st' (fst (composer_call s (th, ok))) /\ rest_of st' = rest_of st.
 Proof.
   intros n th ok nl lp st en lt lm s Hn R Pr. fuel 40 n Hn.
   steps. use_composer_call R Pr. go.
@@ -219,7 +219,7 @@ Lemma eval_current_task_no : forall n th ok nl lp st en lt lm s, (40 <= n)%nat -
   Rst lt lm st s -> Pre s ->
   exists st',
     pev (mkCx (th, ok) nl lp) n st en (EHook "current_task_no") = EV st' en (enc_oz (snd (snd (composer_call s (th, ok))))) /\
-    Rst lt lm st' (fst (composer_call s (th, ok))) /\ i_out st' = i_out st.
+    Rst lt lm st' (fst (composer_call s (th, ok))) /\ rest_of st' = rest_of st.
 Proof.
   intros n th ok nl lp st en lt lm s Hn R Pr. fuel 40 n Hn.
   steps. use_composer_call R Pr. go.
@@ -246,22 +246,23 @@ Definition good_kont (a : actor) (ks : list frame) : Prop :=
   forall n cx cut st, (8 <= n)%nat ->
     drv n cx cut st ks = DDone (set_entry st (Keeper, "_set"%string) (aval a) (Some VNone)).
 
-Record Rsys (lt lm : nat) (y : sys) (s : state) : Prop := {
+Record Rsys (lt lm : nat) (pv : _) (y : sys) (s : state) : Prop := {
   rs_st : Rst lt lm (y_st y) s;
   rs_susp : forall a, match y_susp y a with
                       | Some ks => k_pend s a = true /\ good_kont a ks
                       | None => k_pend s a = false
-                      end
+                      end;
+  rs_pv : pview (y_st y) = pv       (* the debugger side of the state (see [pview]): untouched by the numbering *)
 }.
 
 Ltac dstep := first [rewrite drive_cons | rewrite drive_nil | rewrite drive_k_norm | rewrite drive_k_ret | rewrite drive_k_exc | rewrite drive_k_hook].
 
 (** ---- Emit: an event produced by actor a carries current_trace_no() *)
-Lemma step_emit : forall nl lp lt lm y s a x, Rsys lt lm y s ->
-  Rsys lt lm (fst (istp nl lp y (Emit a x))) (fst (step s (Emit a x))) /\
+Lemma step_emit : forall nl lp lt lm pv y s a x, Rsys lt lm pv y s ->
+  Rsys lt lm pv (fst (istp nl lp y (Emit a x))) (fst (step s (Emit a x))) /\
   snd (istp nl lp y (Emit a x)) = snd (step s (Emit a x)).
 Proof.
-  intros nl lp lt lm y s [th ok] x [R Hs]. unfold istep.
+  intros nl lp lt lm pv y s [th ok] x [R Hs Hv]. unfold istep.
   pose proof (Rst_clear_out _ _ _ _ R) as R0.
   unfold FUEL. rewrite (eval_current_trace_no _ th ok _ _ _ _ lt lm s) by (lia || exact R0).
   cbn [step fst snd]. destruct (m_map s (th, ok)) as [t|]; cbn; (split; [constructor; assumption|reflexivity]).
@@ -271,17 +272,17 @@ Ltac norm ::= cbn -[eval exec drive drive_k Z.add aval]; unfold lookup; cbn [fst
 Ltac dgo := norm; repeat (first [dstep | step1]; norm).
 
 (** ---- End: TaskAndThreadKeeper._on_end(a) -> on_end_task_or_thread -> _map[a] -> on_end_trace -> OnEndTrace *)
-Lemma step_end : forall nl lp lt lm y s a, Rsys lt lm y s ->
-  Rsys lt lm (fst (istp nl lp y (End a))) (fst (step s (End a))) /\
+Lemma step_end : forall nl lp lt lm pv y s a, Rsys lt lm pv y s ->
+  Rsys lt lm pv (fst (istp nl lp y (End a))) (fst (step s (End a))) /\
   snd (istp nl lp y (End a)) = snd (step s (End a)).
 Proof.
-  intros nl lp lt lm y s [th ok] [R Hs]. unfold istep, FUEL. norm. dgo.
+  intros nl lp lt lm pv y s [th ok] [R Hs Hv]. unfold istep, FUEL. norm. dgo.
   rewrite (r_mmap _ _ _ _ R (th, ok)). cbn [step].
   destruct (m_map s (th, ok)) as [t|] eqn:Em; norm.
-  - dgo. split; [|reflexivity]. constructor; [|exact Hs].
+  - dgo. split; [|reflexivity]. constructor; [|exact Hs|exact Hv].
     apply Rst_put_out, Rst_clear_out. exact R.
   - rewrite (r_kinds _ _ _ _ R). init_kind Mapper "_map"%string. dgo.
-    split; [|reflexivity]. constructor; [|exact Hs]. apply Rst_clear_out. exact R.
+    split; [|reflexivity]. constructor; [|exact Hs|exact Hv]. apply Rst_clear_out. exact R.
 Qed.
 
 Lemma composer_call_frame s a :
@@ -294,31 +295,31 @@ Proof.
 Qed.
 
 (** ---- Filtered: the hook `filtered` in actor a, up to the call of on_start_task_or_thread *)
-Lemma step_filtered : forall nl lp lt lm y s a, Rsys lt lm y s -> Pre s ->
-  Rsys lt lm (fst (istp nl lp y (Filtered a))) (fst (step s (Filtered a))) /\
+Lemma step_filtered : forall nl lp lt lm pv y s a, Rsys lt lm pv y s -> Pre s ->
+  Rsys lt lm pv (fst (istp nl lp y (Filtered a))) (fst (step s (Filtered a))) /\
   snd (istp nl lp y (Filtered a)) = snd (step s (Filtered a)).
 Proof.
-  intros nl lp lt lm y s [th ok] [R Hs] Pr. unfold istep, FUEL. cbn [step].
+  intros nl lp lt lm pv y s [th ok] [R Hs Hv] Pr. unfold istep, FUEL. cbn [step].
   pose proof (Hs (th, ok)) as Hsa. destruct (y_susp y (th, ok)) as [ks|] eqn:Esu.
   - destruct Hsa as [Hp _]. rewrite Hp, orb_true_r. cbn. split; [constructor; assumption|reflexivity].
   - rewrite Hsa, orb_false_r. norm. dgo.
     pose proof (r_set _ _ _ _ R (th, ok)) as Hset.
     destruct (i_dicts (y_st y) Keeper "_set" (aval (th, ok))) eqn:Ed; cbn in Hset; rewrite <- Hset; norm.
-    + dgo. split; [|reflexivity]. constructor; [|exact Hs]. apply Rst_clear_out. exact R.
+    + dgo. split; [|reflexivity]. constructor; [|exact Hs|exact Hv]. apply Rst_clear_out. exact R.
     + dgo.
       pose proof (composer_call_frame s (th, ok)) as (Hkp & _).
       assert (Hfin : forall st1, Rst lt lm st1 s -> i_out st1 = [] ->
         forall r, r = pex (mkCx (th, ok) (nl (th, ok)) lp) 54 st1 (eupd eempty "current"%string (aval (th, ok)))
                         (SSeq (SExpr (ECall (EAttr Keeper "_counter"))) (SHook "on_start_task_or_thread" [])) ->
         exists st', r = RHook st' "on_start_task_or_thread" [] [] SSkip (eupd eempty "current"%string (aval (th, ok))) /\
-                    Rst lt lm st' (fst (composer_call s (th, ok))) /\ i_out st' = []).
+                    Rst lt lm st' (fst (composer_call s (th, ok))) /\ i_out st' = [] /\ pview st' = pview st1).
       { intros st1 R1 Ho1 r ->. steps. use_composer_call R1 Pr. go.
-        exists st'. split; [reflexivity|split; [exact HR|congruence]]. }
+        exists st'. split; [reflexivity|split; [exact HR|split; [rewrite <- Ho1; exact (rest_out _ _ Ho)|exact (rest_pv _ _ Ho)]]]. }
       assert (R0 : Rst lt lm (clear_out (y_st y)) s) by (apply Rst_clear_out; exact R).
       destruct (veqb (aval (th, ok)) (i_attrs (y_st y) Keeper "_main_thread")); norm;
         match goal with |- context [pex _ 54 ?st1 _ (SSeq (SExpr _) _)] =>
           assert (R1 : Rst lt lm st1 s) by (first [exact R0 | apply Rst_set_attr; [reflexivity|reflexivity|reflexivity|exact R0]]);
-          destruct (Hfin st1 R1 eq_refl _ eq_refl) as (st' & Hx & HR & Ho)
+          destruct (Hfin st1 R1 eq_refl _ eq_refl) as (st' & Hx & HR & Ho & Hpv)
         end;
         rewrite Hx; clear Hx; dgo; rewrite Ho; norm;
         destruct (composer_call s (th, ok)) as [s1 id]; cbn [fst snd] in *;
@@ -327,10 +328,12 @@ Proof.
         | intros b; unfold updf; destruct (actor_eqb_spec b (th, ok)) as [->|Hne];
           [ split; [reflexivity|]; intros n cx cut st Hn; fuel 8 n Hn; dgo; reflexivity
           | rewrite Hkp; exact (Hs b) ]
+        | exact (eq_trans Hpv Hv)
         | exact (Rst_kpend _ _ _ _ _ HR)
         | intros b; unfold updf; destruct (actor_eqb_spec b (th, ok)) as [->|Hne];
           [ split; [reflexivity|]; intros n cx cut st Hn; fuel 8 n Hn; dgo; reflexivity
-          | rewrite Hkp; exact (Hs b) ] ].
+          | rewrite Hkp; exact (Hs b) ]
+        | exact (eq_trans Hpv Hv) ].
 Qed.
 
 (** from here on the hook reads are not unfolded either *)
@@ -356,11 +359,11 @@ Proof. intros (a' & -> & H). split; [exact H|reflexivity]. Qed.
 
 (** ---- Mapped: actor a resumes at on_start_task_or_thread: trace number, _map[a], on_start_trace
     (Repeater: current_thread_no / current_task_no, OnStartTrace), then the rest of `filtered` *)
-Lemma step_mapped : forall nl lp lt lm y s a, Rsys lt lm y s -> Pre s ->
-  Rsys lt lm (fst (istp nl lp y (Mapped a))) (fst (step s (Mapped a))) /\
+Lemma step_mapped : forall nl lp lt lm pv y s a, Rsys lt lm pv y s -> Pre s ->
+  Rsys lt lm pv (fst (istp nl lp y (Mapped a))) (fst (step s (Mapped a))) /\
   snd (istp nl lp y (Mapped a)) = snd (step s (Mapped a)).
 Proof.
-  intros nl lp lt lm y s [th ok] [R Hs] Pr. unfold istep, FUEL. cbn [step].
+  intros nl lp lt lm pv y s [th ok] [R Hs Hv] Pr. unfold istep, FUEL. cbn [step].
   pose proof (Hs (th, ok)) as Hsa. destruct (y_susp y (th, ok)) as [ks|] eqn:Esu.
   2:{ rewrite Hsa. cbn. split; [constructor; assumption|reflexivity]. }
   destruct Hsa as [Hp Hk]. rewrite Hp.
@@ -368,7 +371,7 @@ Proof.
   pose proof (Rst_clear_out _ _ _ _ R) as R0.
   pose proof (Rst_trace_ctr _ _ _ _ R0) as R1.
   pose proof (Rst_mmap _ _ _ _ (th, ok) (m_ctr s) R1) as R2.
-  match goal with |- Rsys _ _ (fst ?t) ?s' /\ snd ?t = ?b => apply (pair_goal t (fun y' => Rsys lt lm y' s') b) end.
+  match goal with |- Rsys _ _ _ (fst ?t) ?s' /\ snd ?t = ?b => apply (pair_goal t (fun y' => Rsys lt lm pv y' s') b) end.
   norm. dgo. rewrite (r_lm _ _ _ _ R). norm. rewrite (r_lm_h _ _ _ _ R). dgo.
   match goal with |- context [pev (mkCx (?th, ?ok) ?nl ?lp) ?n ?st0 ?en0 (EHook "current_trace_no")] =>
     rewrite (eval_current_trace_no n th ok nl lp st0 en0 lt lm _ ltac:(lia) R2)
@@ -388,20 +391,22 @@ Proof.
   end.
   rewrite Ecm2 in *. cbn [fst snd] in HR4 |- *. dgo.
   match goal with |- context [drv ?n ?cx ?cut ?st0 ks] => rewrite (Hk n cx cut st0 ltac:(lia)) end. norm.
-  assert (Ho : i_out st4 = []) by (rewrite Ho4, Ho3; reflexivity).
+  assert (Ho : i_out st4 = []) by (rewrite (rest_out _ _ Ho4), (rest_out _ _ Ho3); reflexivity).
+  assert (Hpv : pview st4 = pv) by (rewrite (rest_pv _ _ Ho4), (rest_pv _ _ Ho3); exact Hv).
   rewrite Ho. destruct id as [tn [kn|]]; cbn [enc_oz fst snd];
     (eexists; split; [reflexivity|]; constructor; cbn [y_st y_susp k_pend];
      [ exact (Rst_kpend _ _ _ _ _ (Rst_kset _ _ _ _ (th, ok) (Rst_put_out _ _ _ _ _ HR4)))
-     | intros b; unfold updf; destruct (actor_eqb b (th, ok)); [reflexivity|exact (Hs b)] ]).
+     | intros b; unfold updf; destruct (actor_eqb b (th, ok)); [reflexivity|exact (Hs b)]
+     | exact Hpv ]).
 Qed.
 
 (** ================= all labels, the initial state, whole runs ================= *)
 
 (** ONE step of the regenerated code = ONE step of the model, for every related pair of states *)
-Theorem tie_step : forall nl lp lt lm y s l, Rsys lt lm y s -> Pre s ->
-  Rsys lt lm (fst (istp nl lp y l)) (fst (step s l)) /\ snd (istp nl lp y l) = snd (step s l).
+Theorem tie_step : forall nl lp lt lm pv y s l, Rsys lt lm pv y s -> Pre s ->
+  Rsys lt lm pv (fst (istp nl lp y l)) (fst (step s l)) /\ snd (istp nl lp y l) = snd (step s l).
 Proof.
-  intros nl lp lt lm y s [a|a|a x|a] H Pr.
+  intros nl lp lt lm pv y s [a|a|a x|a] H Pr.
   - apply step_filtered; assumption.
   - apply step_mapped; assumption.
   - apply step_emit; assumption.
@@ -409,9 +414,9 @@ Proof.
 Qed.
 
 (** the regenerated __init__ bodies (counters from 1, empty maps, defaultdict of task counters) give the model's [init] *)
-Theorem tie_init : exists lt lm, Rsys lt lm (iinit program) init.
+Theorem tie_init : exists lt lm, Rsys lt lm (pview st_init) (iinit program) init.
 Proof.
-  eexists. eexists. constructor; [constructor|].
+  eexists. eexists. constructor; [constructor| |].
   - reflexivity.
   - vm_compute. reflexivity.
   - vm_compute. reflexivity.
@@ -429,18 +434,19 @@ Proof.
   - intros tn. vm_compute. reflexivity.
   - intros tn tn' l H. vm_compute in H. discriminate.
   - intros a. vm_compute. reflexivity.
+  - reflexivity.
 Qed.
 
 Local Notation itr := (itrace_from program).
 Local Notation iex := (iexec_from program).
 
 (** simulation: from related states, every label sequence gives the same observations *)
-Theorem tie_sim_from : forall nl lp lt lm ls y s tr, Rsys lt lm y s -> Inv tr s ->
-  itr nl lp y ls = trace_from s ls /\ Rsys lt lm (iex nl lp y ls) (exec_from s ls).
+Theorem tie_sim_from : forall nl lp lt lm pv ls y s tr, Rsys lt lm pv y s -> Inv tr s ->
+  itr nl lp y ls = trace_from s ls /\ Rsys lt lm pv (iex nl lp y ls) (exec_from s ls).
 Proof.
-  intros nl lp lt lm ls. induction ls as [|l ls IH]; intros y s tr H I.
+  intros nl lp lt lm pv ls. induction ls as [|l ls IH]; intros y s tr H I.
   - split; [reflexivity|exact H].
-  - destruct (tie_step nl lp lt lm y s l H (Inv_Pre _ _ I)) as [H1 H2].
+  - destruct (tie_step nl lp lt lm pv y s l H (Inv_Pre _ _ I)) as [H1 H2].
     destruct (IH _ _ _ H1 (Inv_step _ _ l I)) as [E1 E2].
     cbn [itrace_from iexec_from trace_from exec_from]. rewrite H2, E1. split; [reflexivity|exact E2].
 Qed.
@@ -448,16 +454,16 @@ Qed.
 Theorem tie_trace : forall nl lp ls, itrace program nl lp ls = trace ls.
 Proof.
   intros nl lp ls. destruct tie_init as (lt & lm & H).
-  exact (proj1 (tie_sim_from nl lp lt lm ls _ _ [] H Inv_init)).
+  exact (proj1 (tie_sim_from nl lp lt lm _ ls _ _ [] H Inv_init)).
 Qed.
 
 Theorem tie_outs : forall nl lp ls, iouts program nl lp ls = outs ls.
 Proof. intros. unfold iouts, outs. rewrite tie_trace. reflexivity. Qed.
 
-Theorem tie_final : forall nl lp ls, exists lt lm, Rsys lt lm (ifinal program nl lp ls) (final ls).
+Theorem tie_final : forall nl lp ls, exists lt lm, Rsys lt lm (pview st_init) (ifinal program nl lp ls) (final ls).
 Proof.
   intros nl lp ls. destruct tie_init as (lt & lm & H). exists lt, lm.
-  exact (proj2 (tie_sim_from nl lp lt lm ls _ _ [] H Inv_init)).
+  exact (proj2 (tie_sim_from nl lp lt lm _ ls _ _ [] H Inv_init)).
 Qed.
 
 (** ================= the C06 invariants hold of the regenerated code ================= *)
@@ -531,4 +537,257 @@ Theorem tie_reset : forall n cx st en lt lm s, (8 <= n)%nat -> Rst lt lm st s ->
 Proof.
   intros n cx st en lt lm s Hn R. fuel 8 n Hn. steps.
   eexists. exists (i_next st). split; [reflexivity|]. exact (Rst_reset _ _ _ _ R).
+Qed.
+
+(** ================= the USE of the trace number: one debugger per trace =================
+    LocalTraceFunc.local_trace_func (local_.py) looks the trace function up in a defaultdict BY
+    current_trace_no(); on a miss the closure of local_.Factory asks the hook create_local_trace_func, i.e.
+    PdbInstanceFactory, whose closure (pdb_/factory.py) creates a NEW StdInOut and a NEW CustomizedPdb, and wraps
+    pdb.trace_dispatch in WithContext.  (The SHAPE of the two `Factory(hook)` functions -- set-up assignments, one
+    nested `_factory`, `return _factory` -- and three facts about WithContext are pinned by the translator; the
+    bodies of `_factory`, `init`, `local_trace_func`, `create_local_trace_func` are translated and interpreted.) *)
+
+Ltac stop_check ::=
+  lazymatch goal with
+  | |- context [eval ?p1 ?p2 ?p3 ?p4 ?p5 (EMethod Composer "_compose" ?p6)] => fail
+  | |- context [eval ?q1 ?q2 ?q3 ?q4 ?q5 (ECall (EAttr Keeper "_counter"))] => fail
+  | |- context [eval ?r1 ?r2 ?r3 ?r4 ?r5 (EHook "current_trace_no")] => fail
+  | |- context [eval ?r1 ?r2 ?r3 ?r4 ?r5 (EHook "current_thread_no")] => fail
+  | |- context [eval ?r1 ?r2 ?r3 ?r4 ?r5 (EHook "current_task_no")] => fail
+  | _ => idtac
+  end.
+
+Notation pvt := ((value -> option value) * nat * option ckind * value)%type.
+Definition pv_map (pv : pvt) : value -> option value := fst (fst (fst pv)).
+Definition pv_n (pv : pvt) : nat := snd (fst (fst pv)).
+
+(** the trace function the two closures build: WithContext #lw around the trace_dispatch of CustomizedPdb #lp,
+    whose stdin and stdout are StdInOut #ls *)
+Definition pdb_obj (ls lp : nat) : value :=
+  VInst "CustomizedPdb" lp [("stdin"%string, VInst "StdInOut" ls []); ("stdout"%string, VInst "StdInOut" ls [])].
+Definition tf_of (lw ls lp : nat) : value :=
+  VInst "WithContext" lw [("trace"%string, VBound (pdb_obj ls lp) "trace_dispatch")].
+
+(** the Pdb instance behind the entry of a trace number (None: the key of a thread / task without a trace) *)
+Definition pdb_at (pv : pvt) (o : option Z) : option value :=
+  match pv_map pv (enc_oz o) with
+  | Some (VInst _ _ fs) => match find_str fs "trace" with Some (VBound self _) => Some self | _ => None end
+  | _ => None
+  end.
+
+Record PInv (pv : pvt) : Prop := {
+  pi_kind : snd (fst pv) = i_kinds st_init Local "_map";
+  pi_fact : snd pv = i_attrs st_init PdbFactory "_factory";
+  pi_shape : forall o v, pv_map pv (enc_oz o) = Some v ->
+      exists lw ls lp, v = tf_of lw ls lp /\ (lw < pv_n pv)%nat /\ (ls < pv_n pv)%nat /\ (lp < pv_n pv)%nat;
+  (* ONE Pdb and ONE StdInOut per key: two entries never share either *)
+  pi_inj : forall o o' lw ls lp lw' ls' lp',
+      pv_map pv (enc_oz o) = Some (tf_of lw ls lp) -> pv_map pv (enc_oz o') = Some (tf_of lw' ls' lp') ->
+      lp = lp' \/ ls = ls' -> o = o'
+}.
+
+Lemma PInv_init : PInv (pview st_init).
+Proof.
+  constructor.
+  - reflexivity.
+  - reflexivity.
+  - intros o v H. vm_compute in H. discriminate.
+  - intros o o' lw ls lp lw' ls' lp' H. vm_compute in H. discriminate.
+Qed.
+
+Lemma veqb_enc_oz o o' : veqb (enc_oz o) (enc_oz o') = true <-> o = o'.
+Proof.
+  destruct o as [x|], o' as [y|]; simpl; split; intros H; try discriminate; try reflexivity.
+  - apply Z.eqb_eq in H. congruence.
+  - inversion H. apply Z.eqb_refl.
+Qed.
+
+Local Notation idsp := (idispatch program).
+
+Ltac init_attr c n :=
+  let k := eval vm_compute in (i_attrs st_init c n) in
+  change (i_attrs st_init c n) with k.
+
+Lemma dispatch_core : forall nl lp lt lm pv y s a x, Rsys lt lm pv y s -> PInv pv ->
+  exists pv' y' r,
+    idsp nl lp y a x = (y', r) /\ Rsys lt lm pv' y' s /\ PInv pv' /\
+    r = pdb_at pv' (m_map s a) /\ r <> None /\
+    (forall o, o <> m_map s a -> pv_map pv' (enc_oz o) = pv_map pv (enc_oz o)) /\
+    (pv_map pv (enc_oz (m_map s a)) <> None -> pv' = pv).
+Proof.
+  intros nl lp lt lm pv y s [th ok] x [R Hs Hv] PI. unfold idispatch, FUEL.
+  pose proof (Rst_clear_out _ _ _ _ R) as R0.
+  destruct pv as [[[d n] k] f]. unfold pview in Hv. injection Hv as Hd Hn Hk Hf.
+  destruct PI as [PK PF PS PJ]. unfold pv_map, pv_n in *. cbn [fst snd] in *.
+  norm. dgo.
+  match goal with |- context [pev (mkCx (?th, ?ok) ?nl ?lp) ?n0 ?st0 ?en0 (EHook "current_trace_no")] =>
+    rewrite (eval_current_trace_no n0 th ok nl lp st0 en0 lt lm _ ltac:(lia) R0)
+  end.
+  dgo. rewrite Hd. set (t := m_map s (th, ok)) in *.
+  destruct (d (enc_oz t)) as [v|] eqn:Ed.
+  - destruct (PS t v Ed) as (lw & ls & lpp & -> & Hlw & Hls & Hlp).
+    norm. dgo. rewrite Z.eqb_refl.
+    exists (d, n, k, f). eexists. eexists. split; [reflexivity|].
+    split; [constructor; [apply Rst_put_out; exact R0|exact Hs|unfold pview; cbn; rewrite Hd, Hn, Hk, Hf; reflexivity]|].
+    split; [constructor; assumption|].
+    split; [unfold pdb_at, pv_map; cbn [fst snd]; rewrite Ed; reflexivity|].
+    split; [discriminate|]. split; [reflexivity|reflexivity].
+  - rewrite Hk, PK. init_kind Local "_map"%string. dgo.
+    rewrite Hf, PF. init_attr PdbFactory "_factory"%string. dgo.
+    rewrite Z.eqb_refl.
+    eexists. eexists. eexists. split; [reflexivity|].
+    split; [constructor; [|exact Hs|reflexivity]|].
+    { exact (Rst_put_out _ _ _ _ _ (Rst_local_entry _ _ _ _ _ _ (Rst_new_obj _ _ _ _ (Rst_new_obj _ _ _ _ (Rst_new_obj _ _ _ _ R0))))). }
+    unfold pview, pdb_at, pv_map, pv_n. cbn -[veqb enc_oz]. rewrite Hd, Hn.
+    fold (pdb_obj n (S n)). fold (tf_of (S (S n)) n (S n)).
+    split; [constructor; unfold pv_map, pv_n; cbn -[veqb enc_oz]|].
+    + rewrite Hk. exact PK.
+    + rewrite Hf. exact PF.
+    + intros o v H. destruct (veqb (enc_oz o) (enc_oz t)).
+      * injection H as <-. exists (S (S n)), n, (S n). repeat split; lia.
+      * destruct (PS o v H) as (lw & ls & lpp & -> & A & B & C). exists lw, ls, lpp. repeat split; lia.
+    + intros o o' lw ls lpp lw' ls' lpp' H H'.
+      destruct (veqb (enc_oz o) (enc_oz t)) eqn:E; destruct (veqb (enc_oz o') (enc_oz t)) eqn:E'.
+      * intros _. apply veqb_enc_oz in E. apply veqb_enc_oz in E'. congruence.
+      * intros D. exfalso. inversion H. destruct (PS o' _ H') as (a1 & a2 & a3 & Q & A & B & C). inversion Q. lia.
+      * intros D. exfalso. inversion H'. destruct (PS o _ H) as (a1 & a2 & a3 & Q & A & B & C). inversion Q. lia.
+      * eauto.
+    + split; [rewrite (proj2 (veqb_enc_oz t t) eq_refl); reflexivity|].
+      split; [discriminate|]. split; [|intros C; exfalso; apply C; reflexivity].
+      intros o Ho. destruct (veqb (enc_oz o) (enc_oz t)) eqn:E; [apply veqb_enc_oz in E; contradiction|reflexivity].
+Qed.
+
+(** the call local_trace_func(frame=x, ..) in actor a reaches the Pdb stored under a's CURRENT TRACE NUMBER; if there
+    is none yet, a new (StdInOut, CustomizedPdb) pair is created for that number and stored; nothing else changes *)
+Theorem tie_dispatch : forall nl lp lt lm pv y s a x, Rsys lt lm pv y s -> PInv pv ->
+  exists pv',
+    Rsys lt lm pv' (fst (idsp nl lp y a x)) s /\ PInv pv' /\
+    snd (idsp nl lp y a x) = pdb_at pv' (m_map s a) /\ snd (idsp nl lp y a x) <> None /\
+    (forall o, o <> m_map s a -> pv_map pv' (enc_oz o) = pv_map pv (enc_oz o)) /\
+    (pv_map pv (enc_oz (m_map s a)) <> None -> pv' = pv).
+Proof.
+  intros nl lp lt lm pv y s a x H PI.
+  destruct (dispatch_core nl lp lt lm pv y s a x H PI) as (pv' & y' & r & E & H1 & H2 & H3 & H4 & H5 & H6).
+  exists pv'. rewrite E. cbn [fst snd]. split; [exact H1|split; [exact H2|split; [exact H3|split; [exact H4|split; [exact H5|exact H6]]]]].
+Qed.
+
+(** ---- runs in which the numbering labels and calls of local_trace_func are interleaved *)
+Inductive xlabel := XL (l : label) | XD (a : actor) (x : Z).
+
+Definition xstep nl lp (y : sys) (xl : xlabel) : sys :=
+  match xl with
+  | XL l => fst (istp nl lp y l)
+  | XD a x => fst (idsp nl lp y a x)
+  end.
+Fixpoint xexec nl lp (y : sys) (xls : list xlabel) : sys :=
+  match xls with [] => y | xl :: r => xexec nl lp (xstep nl lp y xl) r end.
+Fixpoint xproj (xls : list xlabel) : list label :=
+  match xls with [] => [] | XL l :: r => l :: xproj r | XD _ _ :: r => xproj r end.
+Fixpoint xouts nl lp (y : sys) (xls : list xlabel) : list out :=
+  match xls with
+  | [] => []
+  | XL l :: r => snd (istp nl lp y l) :: xouts nl lp (xstep nl lp y (XL l)) r
+  | XD a x :: r => xouts nl lp (xstep nl lp y (XD a x)) r
+  end.
+
+(** an entry of LocalTraceFunc._map, once there, is never replaced *)
+Definition pv_le (pv pv' : pvt) : Prop :=
+  forall o v, pv_map pv (enc_oz o) = Some v -> pv_map pv' (enc_oz o) = Some v.
+
+Lemma dispatch_pv_le nl lp lt lm pv y s a x : Rsys lt lm pv y s -> PInv pv ->
+  exists pv', Rsys lt lm pv' (fst (idsp nl lp y a x)) s /\ PInv pv' /\ pv_le pv pv' /\
+              snd (idsp nl lp y a x) = pdb_at pv' (m_map s a) /\ snd (idsp nl lp y a x) <> None.
+Proof.
+  intros H PI. destruct (tie_dispatch nl lp lt lm pv y s a x H PI) as (pv' & H1 & H2 & H3 & H4 & H5 & H6).
+  exists pv'. split; [exact H1|split; [exact H2|split; [|split; [exact H3|exact H4]]]].
+  intros o v E. destruct (pv_map pv (enc_oz (m_map s a))) eqn:Em.
+  - rewrite H6; [exact E|congruence].
+  - assert (Hne : o <> m_map s a) by (intros ->; congruence). rewrite (H5 _ Hne). exact E.
+Qed.
+
+Theorem tie_xrun_from : forall nl lp lt lm xls pv y s tr, Rsys lt lm pv y s -> PInv pv -> Inv tr s ->
+  exists pv' tr', Rsys lt lm pv' (xexec nl lp y xls) (exec_from s (xproj xls)) /\ PInv pv' /\ pv_le pv pv' /\
+                  Inv tr' (exec_from s (xproj xls)) /\ xouts nl lp y xls = map snd (trace_from s (xproj xls)).
+Proof.
+  intros nl lp lt lm xls. induction xls as [|[l|a x] r IH]; intros pv y s tr H PI I.
+  - exists pv, tr. split; [exact H|split; [exact PI|split; [intros o v E; exact E|split; [exact I|reflexivity]]]].
+  - destruct (tie_step nl lp lt lm pv y s l H (Inv_Pre _ _ I)) as [H1 H2].
+    destruct (IH _ _ _ _ H1 PI (Inv_step _ _ l I)) as (pv' & tr' & A & B & C & D & E).
+    exists pv', tr'. cbn [xexec xstep xproj xouts exec_from trace_from map snd]. rewrite H2, E.
+    split; [exact A|split; [exact B|split; [exact C|split; [exact D|reflexivity]]]].
+  - destruct (dispatch_pv_le nl lp lt lm pv y s a x H PI) as (pv1 & A1 & B1 & C1 & _).
+    destruct (IH _ _ _ _ A1 B1 I) as (pv' & tr' & A & B & C & D & E).
+    exists pv', tr'. cbn [xexec xstep xproj xouts].
+    split; [exact A|split; [exact B|split; [intros o v Ev; apply C, C1, Ev|split; [exact D|exact E]]]].
+Qed.
+
+(** from the initial state: the numbering labels of a run behave as in the model, whatever calls of local_trace_func
+    are interleaved, and the one-debugger-per-key invariant holds at the end *)
+Theorem tie_xrun : forall nl lp xls,
+  exists lt lm pv tr, Rsys lt lm pv (xexec nl lp (iinit program) xls) (final (xproj xls)) /\ PInv pv /\
+                      Inv tr (final (xproj xls)) /\ xouts nl lp (iinit program) xls = outs (xproj xls).
+Proof.
+  intros nl lp xls. destruct tie_init as (lt & lm & H).
+  destruct (tie_xrun_from nl lp lt lm xls _ _ _ [] H PInv_init Inv_init) as (pv & tr & A & B & _ & D & E).
+  exists lt, lm, pv, tr. split; [exact A|split; [exact B|split; [exact D|exact E]]].
+Qed.
+
+(** a trace number, once given, stays (one step of the model) *)
+Lemma m_map_stable tr s l a t : Inv tr s -> m_map s a = Some t -> m_map (fst (step s l)) a = Some t.
+Proof.
+  intros I H. destruct l as [b|b|b x|b]; cbn [step].
+  - destruct (k_set s b || k_pend s b); [exact H|].
+    pose proof (composer_call_frame s b) as (_ & _ & _ & Hm). destruct (composer_call s b) as [s1 id]. cbn [fst] in *.
+    cbn. rewrite Hm. exact H.
+  - destruct (k_pend s b) eqn:Ep; [|exact H]. cbn. unfold updf.
+    destruct (actor_eqb_spec a b) as [->|]; [|exact H].
+    destruct (i_pend _ _ I _ Ep) as [_ Hn]. congruence.
+  - exact H.
+  - destruct (m_map s b); exact H.
+Qed.
+
+Lemma m_map_stable_run : forall ls tr s a t, Inv tr s -> m_map s a = Some t -> m_map (exec_from s ls) a = Some t.
+Proof.
+  induction ls as [|l r IH]; intros tr s a t I H; [exact H|].
+  cbn [exec_from]. eapply IH; [apply (Inv_step _ _ l I)|eapply m_map_stable; eauto].
+Qed.
+
+(** TWO DIFFERENT started actors are never served by the same Pdb nor by the same StdInOut (for all related states) *)
+Theorem tie_dispatch_separates : forall nl lp lt lm pv y s tr a b ta tb x x',
+  Rsys lt lm pv y s -> PInv pv -> Inv tr s ->
+  m_map s a = Some ta -> m_map s b = Some tb -> a <> b ->
+  exists ls lpp ls' lpp',
+    snd (idsp nl lp y a x) = Some (pdb_obj ls lpp) /\
+    snd (idsp nl lp (fst (idsp nl lp y a x)) b x') = Some (pdb_obj ls' lpp') /\
+    lpp <> lpp' /\ ls <> ls'.
+Proof.
+  intros nl lp lt lm pv y s tr a b ta tb x x' H PI I Ha Hb Hab.
+  destruct (dispatch_pv_le nl lp lt lm pv y s a x H PI) as (pv1 & A1 & B1 & C1 & D1 & E1).
+  destruct (dispatch_pv_le nl lp lt lm pv1 _ s b x' A1 B1) as (pv2 & A2 & B2 & C2 & D2 & E2).
+  rewrite Ha in D1. rewrite Hb in D2. rewrite D1 in *. rewrite D2 in *. clear D1 D2.
+  unfold pdb_at in *.
+  destruct (pv_map pv1 (enc_oz (Some ta))) as [v1|] eqn:V1; [|congruence].
+  destruct (pv_map pv2 (enc_oz (Some tb))) as [v2|] eqn:V2; [|congruence].
+  pose proof (C2 _ _ V1) as V1'.
+  destruct (pi_shape _ B2 _ _ V1') as (lw & ls & lpp & -> & _). destruct (pi_shape _ B2 _ _ V2) as (lw' & ls' & lpp' & -> & _).
+  exists ls, lpp, ls', lpp'. cbn. split; [reflexivity|split; [reflexivity|split]].
+  - intros ->. assert (Some ta = Some tb) by (eapply (pi_inj _ B2); eauto). 
+    apply Hab. eapply (i_tr_inj _ _ I); [exact Ha|congruence].
+  - intros ->. assert (Some ta = Some tb) by (eapply (pi_inj _ B2); eauto).
+    apply Hab. eapply (i_tr_inj _ _ I); [exact Ha|congruence].
+Qed.
+
+(** the SAME actor is served by the same Pdb again, whatever happens in between (numbering labels of any actors,
+    calls of local_trace_func of any actors) *)
+Theorem tie_dispatch_same_pdb : forall nl lp lt lm pv y s tr a t x x' xls,
+  Rsys lt lm pv y s -> PInv pv -> Inv tr s -> m_map s a = Some t ->
+  snd (idsp nl lp (xexec nl lp (fst (idsp nl lp y a x)) xls) a x') = snd (idsp nl lp y a x).
+Proof.
+  intros nl lp lt lm pv y s tr a t x x' xls H PI I Ha.
+  destruct (dispatch_pv_le nl lp lt lm pv y s a x H PI) as (pv1 & A1 & B1 & C1 & D1 & E1).
+  destruct (tie_xrun_from nl lp lt lm xls _ _ _ _ A1 B1 I) as (pv2 & tr2 & A2 & B2 & C2 & I2 & _).
+  destruct (dispatch_pv_le nl lp lt lm pv2 _ _ a x' A2 B2) as (pv3 & A3 & B3 & C3 & D3 & E3).
+  rewrite D3, D1, (m_map_stable_run _ _ _ _ _ I Ha), Ha. rewrite D1, Ha in E1.
+  unfold pdb_at in *. destruct (pv_map pv1 (enc_oz (Some t))) as [v|] eqn:V; [|congruence].
+  rewrite (C3 _ _ (C2 _ _ V)). reflexivity.
 Qed.
